@@ -788,7 +788,8 @@ func Monitor(res *Result, which string) []vh.Violation {
 						exp = L.T + 2*g.RI
 					}
 					for _, gc := range res.GCs {
-						if gc > L.T && gc <= f.T+res.Wait && gc >= exp {
+						// a GC operation of the scenario runs after the timer-driven flushes of the same instant
+						if gc > L.T && gc < f.T+res.Wait && gc >= exp {
 							L = nil
 							last[i] = nil
 							break
